@@ -578,6 +578,15 @@ GetStep(cs, ev) ==
                            1, cs.n + 1, "")]
 
 (***************************************************************************)
+(* One line through StreamProcessor.process_line (second entry point of    *)
+(* C09): ev = [raised, okshape] -- okshape: the result is None or a string *)
+(***************************************************************************)
+SpStep(cs, ev) ==
+    [cs EXCEPT !.n = cs.n + 1,
+               !.v = Judge(cs.v, << <<"C09", "C09.noraise", ev.raised = "">>,
+                                    <<"C09", "C09.shape", ev.okshape>> >>, 1, cs.n + 1, "")]
+
+(***************************************************************************)
 (* Region added directly to the filter state (interleaved with commands).  *)
 (***************************************************************************)
 AddRegionStep(cs, reg) == [cs EXCEPT !.n = cs.n + 1, !.regs = Append(cs.regs, reg)]
